@@ -45,3 +45,6 @@ fn int_const_total() {
     kani::cover!(w > u32::MAX as u64, "does not fit in u32");
     kani::cover!(len == 10 && w <= u32::MAX as u64, "ten digits that fit");
 }
+
+// Concrete playback (./check <id> --replay): Kani's generated unit test is written to this file, which is empty otherwise.
+include!("/verif/build/gen/playback_compiler_lib.rs");
